@@ -5,6 +5,8 @@ evaluates the Lean property predicate on the implementation's output. Core-only 
 import WrglModel.Driver.C11
 import WrglModel.Driver.C04
 import WrglModel.Driver.C06
+import WrglModel.Driver.C19
+import WrglModel.Driver.C01
 open Lean Wrgl.Drv
 
 def dispatch (prop op : String) (input impl : Json) : Except String Json :=
@@ -12,6 +14,10 @@ def dispatch (prop op : String) (input impl : Json) : Except String Json :=
   | "C11" => handleC11 op input impl
   | "C04" => handleC04 op input impl
   | "C06" => handleC06 op input impl
+  | "C19" => handleC19 op input impl
+  | "C01" => handleC01 op input impl
+  | "C02" => handleC02 op input impl
+  | "C03" => handleC03 op input impl
   | _ => .error s!"unknown property {prop}"
 
 def handleLine (line : String) : Json :=
